@@ -527,6 +527,29 @@ pub fn generate(prop: &str, tier: &str, seed: u64, out: &Path, nshards: usize, r
         }
         return ctx.finish("replay of one recorded input");
     }
+    // pair properties: recorded pair witnesses first (corpus/pairs/<prop>/*.json, replay format)
+    if pair {
+        let dir = crate::util::verif_dir().join("corpus").join("pairs").join(prop);
+        if let Ok(rd) = std::fs::read_dir(dir) {
+            let mut ps: Vec<_> = rd.filter_map(|e| e.ok()).map(|e| e.path()).filter(|p| p.extension().map(|x| x == "json").unwrap_or(false)).collect();
+            ps.sort();
+            for p in ps {
+                let Ok(t) = std::fs::read_to_string(&p) else { continue };
+                let Ok(v) = serde_json::from_str::<Value>(&t) else { continue };
+                let input = if v.get("input").is_some() { v["input"].clone() } else { v };
+                if !input["a"]["registry"].is_object() || !input["b"]["registry"].is_object() {
+                    continue;
+                }
+                let ra = reggen::to_registry(&input["a"]["registry"]);
+                let rb = reggen::to_registry(&input["b"]["registry"]);
+                let sa: SettingsSpec = serde_json::from_value(input["a"]["settings"].clone()).unwrap_or_default();
+                let sb: SettingsSpec = serde_json::from_value(input["b"]["settings"].clone()).unwrap_or_default();
+                let perm: Vec<usize> = input["perm"].as_array().map(|a| a.iter().map(|x| x.as_u64().unwrap_or(0) as usize).collect()).unwrap_or_default();
+                let info = crate::c17::RetainInfo::from_json(&input["retain"]);
+                ctx.push_pair_full("corpus-witness", input["pair_kind"].as_str().unwrap_or("same"), (&ra, &sa), (&rb, &sb), &perm, info.as_ref());
+            }
+        }
+    }
     // recorded witnesses first (corpus/TG/*.json: {"input": {"registry": .., "settings": ..}}): minimised
     // failing inputs of repaired defects and of seeded changes; every single-case TG property runs them
     if !pair {
